@@ -1,0 +1,24 @@
+//go:build verif
+
+// Verification hooks (build tag "verif" only): make the order in which the
+// compiler's phases visit modules, submodules and identities observable to an
+// external tracer.  With the tag off none of this is compiled (see
+// verif_nohooks.go).
+
+package compile
+
+import "sync/atomic"
+
+var verifPhaseTracer atomic.Value // of func(phase, key string)
+
+// VerifSetPhaseTracer installs (or, with nil, removes) the tracer that is
+// called at the top of every loop body of the compiler's phases.
+func VerifSetPhaseTracer(f func(phase, key string)) {
+	verifPhaseTracer.Store(f)
+}
+
+func verifPhase(phase, key string) {
+	if f, _ := verifPhaseTracer.Load().(func(phase, key string)); f != nil {
+		f(phase, key)
+	}
+}
